@@ -251,6 +251,11 @@ def c18(tier, replay_file=None):
         kc.pop("CNT", None)
         cpath_codes = os.path.join(wd, "codes.ndjson")
         write_ndjson(cpath_codes, [{"name": n, "code": c} for n, c in sorted(kc.items(), key=lambda x: x[1])])
+        # the tool spells the four kernel names that start with a digit with a leading K (KEY_102ND -> K102ND)
+        for k in toolkeys:
+            n = k["name"]
+            if n not in kc and n[:1] == "K" and n[1:2].isdigit() and n[1:] in kc:
+                kc[n] = kc.pop(n[1:])
         missing = [k["name"] for k in toolkeys if k["name"] not in kc]
         if missing:
             res.notes.append("key names of the tool that the kernel header does not define (not judged): %s" % missing[:10])
@@ -284,6 +289,9 @@ def c18(tier, replay_file=None):
         log("[record] send/next over a pipe for %d cases, %.1fs" % (len(cases), time.time() - t0))
         files, n = split_file(rpath, PROCS, wd, "res")
         judged, nontriv, bad, kn, _ = judge(res, wd, "WireCheck", files, known_ids(prop), extra_env={"CODES": cpath_codes, "KEYS": kpath})
+        aux = [l for f in os.listdir(wd) if f.startswith("tlc_judge_WireCheck") for l in open(os.path.join(wd, f)) if l.startswith('<<"AUX"') or l.startswith('<< "AUX"')]
+        if aux:
+            res.notes.append("auxiliary behaviour (no listed property): the tablet-mode switch reader differs from Wire!TabletFilter in %d cases, e.g. %s" % (len(aux), aux[0][:300]))
         case_by_id = {c["id"]: c for c in cases}
         results = read_ndjson(rpath)
         result_by_id = {r["id"]: r for r in results} if (bad or replay_file) else {}
